@@ -30,6 +30,7 @@ type TypeEnv struct {
 	structs map[string]*structInfo
 	tags    map[string]int // type string -> type tag
 	tagList []types.Type
+	pureSigs map[string]string
 }
 
 type structInfo struct {
@@ -41,7 +42,7 @@ type structInfo struct {
 }
 
 func NewTypeEnv(pre *Prelude) *TypeEnv {
-	return &TypeEnv{pre: pre, structs: map[string]*structInfo{}, tags: map[string]int{}}
+	return &TypeEnv{pre: pre, structs: map[string]*structInfo{}, tags: map[string]int{}, pureSigs: map[string]string{}}
 }
 
 func qualName(n *types.Named) string {
